@@ -25,7 +25,7 @@ LEVEL = "model_checking"
 SHARDS = 4
 RULE = (
     "all ordered forests with <= N nodes (node = scope construct or probe message) x full product of "
-    "labels: construct in 12 kinds (incl. context()/run() of an already finished action, `with` on an action created in another context or before the scope it is entered in), re-entry target k in {0,1,2}, fault in {none, destination raises BaseException on the end message, own logger raises on the end message}, exit in {fall through, Exception / "
+    "labels: construct in 15 kinds (incl. a context() object made before the scope it is entered in, `with` on an action that is finished inside its own block or entered a second time, context()/run() of an already finished action, `with` on an action created in another context or before the scope it is entered in), re-entry target k in {0,1,2}, fault in {none, destination raises BaseException on the end message, own logger raises on the end message}, exit in {fall through, Exception / "
     "BaseException caught here, Exception / BaseException propagating to the top}; states = distinct reference context stacks reached (as "
     "tuples of construct kinds), transitions = scope entries + exits executed; non-trivial = tree with "
     "nesting depth >= 2 or a raise"
@@ -37,12 +37,14 @@ ASSUMPTIONS = [
 
 KINDS = ["with", "context", "run", "re-context", "re-run", "start_task", "generator-close", "generator-context-close",
          "context-of-finished-action", "run-of-finished-action",
-         "with-action-created-in-an-empty-context", "with-action-created-before-the-scope-it-is-entered-in"]
+         "with-action-created-in-an-empty-context", "with-action-created-before-the-scope-it-is-entered-in",
+         "with-action-finished-explicitly-inside-its-own-block", "with-action-entered-a-second-time",
+         "context()-object-made-before-the-scope-it-is-entered-in"]
 # exit: 0 fall through, 1 Exception caught right outside, 2 Exception propagating to the top,
 #       3 BaseException caught right outside, 4 BaseException propagating to the top
 # fault: 0 none; 1 a destination raises a BaseException while it is handed this action's end message;
 #        2 the action has its own logger whose write() raises on the end message
-SCHEMA = {"m": [], "a": [("c", 12), ("k", 3), ("exit", 5), ("fault", 3)]}
+SCHEMA = {"m": [], "a": [("c", 15), ("k", 3), ("exit", 5), ("fault", 3)]}
 
 
 def BOUNDS(tier):
@@ -309,6 +311,21 @@ def run_case(prog):
                         inside(s, a, kind)
                 else:
                     a.run(lambda: inside(s, a, kind))
+            elif c == 12:
+                # the application finishes the action itself before the block is left (either way out)
+                a = new_action0(False, 0)
+                with a:
+                    try:
+                        inside(s, a, kind)
+                    finally:
+                        a.finish()
+            elif c == 13:
+                # an action object used for a second block after its first one finished it
+                a = new_action0(False, 0)
+                with a:
+                    pass
+                with a:
+                    inside(s, a, kind)
             elif c == 10:
                 # created where no action is current (a job object made elsewhere), entered here
                 import contextvars
@@ -329,6 +346,22 @@ def run_case(prog):
                         check("after-exit:inner-of-" + kind, s)
                     finally:
                         stack.pop()
+            elif c == 14:
+                # the context manager is made here, entered later inside b's block: what is restored on
+                # leaving is what was current on entering (b), not what was current when it was made
+                a = new_action0(False, 0)
+                cm = a.context()
+                b = new_action0(False, 0)
+                with b:
+                    stack.append((b, "with"))
+                    try:
+                        check("after-enter:outer-of-" + kind, s)
+                        with cm:
+                            inside(s, a, kind)
+                        check("after-exit:inner-of-" + kind, s)
+                    finally:
+                        stack.pop()
+                a.finish()
             elif c == 3:
                 a = stack[-1 - s[1].get("k", 0)][0]
                 with a.context():
